@@ -64,7 +64,7 @@ class R:
         return out
 
     def _echo_args(self, h):
-        return "vec![" + ", ".join(f"(\"{a['name']}\", j(&{a['name']}))" for a in h["args"]) + "]"
+        return "vec![" + ", ".join(f"(\"{T.arg_key(a)}\", j(&{a['name']}))" for a in h["args"]) + "]"
 
     def _ret(self, h, m, e, in_trait=False):
         if h["kind"] == "query":
